@@ -510,6 +510,35 @@ def _run(ctx):
     ports = [dict(t[3]).get("port") for n, t in cos.ta.terms_at.items() if isinstance(n, ast.Call) and call_is(t, AC)]
     ctx.ob("C20.e", co.qual, ports == [("const", 6444)], "manual connection constructs the device on port 6444", func=co.qual, file=file, construct="AC(ip=..., port=6444, ...)",
            detail={"ports": [show(p) if p else None for p in ports]}, fail=f"manual connection uses port {[show(p) if p else None for p in ports]}")
+    # ---------------------------------------------------------------- C20.f the exit status _control chose is the one the process ends with
+    # (between `exit(1)` in _control and the interpreter nothing replaces the SystemExit: no handler for it, no `finally` that exits,
+    # returns or raises on the way out of the runner / entry point)
+    climod = fn.module
+    runners = []
+    for q_, f_ in prog.funcs.items():
+        if f_.module is not climod or f_ is fn:
+            continue
+        for t_ in ast.walk(f_.node):
+            if not isinstance(t_, ast.Try):
+                continue
+            body_calls = [norm(c_.func) for b_ in t_.body for c_ in ast.walk(b_) if isinstance(c_, ast.Call)]
+            if not any(c_ in ("asyncio.run", "_run", "args.func", "loop.run_until_complete") or c_.endswith(".run_until_complete") for c_ in body_calls):
+                continue
+            runners.append((f_, t_))
+    ctx.count("runner_try_blocks", len(runners))
+    for f_, t_ in runners:
+        bad_ = None
+        for h_ in t_.handlers:
+            names_ = ["BaseException"] if h_.type is None else [norm(x_).split(".")[-1] for x_ in (h_.type.elts if isinstance(h_.type, ast.Tuple) else [h_.type])]
+            if any(n_ in ("SystemExit", "BaseException") for n_ in names_) and not any(isinstance(x_, ast.Raise) and x_.exc is None for b_ in h_.body for x_ in ast.walk(b_)):
+                bad_ = (h_, f"`except {', '.join(names_)}` swallows the SystemExit")
+        for b_ in t_.finalbody:
+            for x_ in ast.walk(b_):
+                if isinstance(x_, (ast.Return, ast.Raise)) or (isinstance(x_, ast.Call) and norm(x_.func) in ("exit", "sys.exit", "quit", "os._exit")):
+                    bad_ = bad_ or (x_, f"`{norm(x_)[:40]}` in a finally block replaces the pending SystemExit")
+        ctx.ob("C20.f", f_.qual, bad_ is None, "the runner lets a SystemExit raised by the command pass through unchanged", func=f_.qual, file=file,
+               node=bad_[0] if bad_ else t_, construct="try around the command",
+               fail=(bad_[1] + ": a rejected setting ends the process with status 0") if bad_ else "")
     ctx.require_min("settings_loops", 1)
     ctx.require_min("exits", 2)          # (eleven on the pinned tree; a shared reject helper legitimately leaves a handful)
     ctx.require_min("conversion_leaves", 5)
